@@ -55,8 +55,15 @@ def classes():
 
 
 def scalar(sid):
-    """spec scalar table: 1 -> int -1, 2 -> float 2.0, 3 -> complex 1j (three Python scalar types)."""
-    return {1: -1, 2: 2.0, 3: 1j}[sid]
+    """spec scalar table (C16Defs.ScalarVal): the number in every Python / numpy scalar type that COEFFICIENT_TYPES admits
+    (np.complex64, id 15, is outside COEFFICIENT_TYPES: accept-either)."""
+    return {1: -1, 2: 2.0, 3: 1j, 4: 0, 5: np.int8(-1), 6: np.int16(2), 7: np.int32(-2), 8: np.int64(3),
+            9: np.uint8(3), 10: np.uint16(2), 11: np.uint32(3), 12: np.uint64(2), 13: np.float32(2.0), 14: np.float64(-1.0),
+            15: np.complex64(1j), 16: np.complex128(1j), 17: -3}[sid]
+
+
+SCALAR_TYPE = {1: "int", 2: "float", 3: "complex", 4: "int", 5: "np.int8", 6: "np.int16", 7: "np.int32", 8: "np.int64", 9: "np.uint8",
+               10: "np.uint16", 11: "np.uint32", 12: "np.uint64", 13: "np.float32", 14: "np.float64", 15: "np.complex64", 16: "np.complex128", 17: "int"}
 
 
 def key_to_term(family, t):
@@ -205,6 +212,8 @@ def replay_history(chk, family, h0, steps, where=None):
         rcls = exp[st["yn"]]["cls"] if st["yn"] else None
         site = site_of(st, lcls, rcls)
         other = (rcls or "scalar") if lcls else "scalar-left"
+        if kind in ("bin", "aug") and (st["xs"] or st["ys"]) and (st["xs"] or st["ys"]) > 3:
+            other += "[%s]" % SCALAR_TYPE[st["xs"] or st["ys"]]          # typed numpy / Python scalar
         if st["xn"] and st["xn"] == st["yn"]:
             other = "self"                       # the same object on both sides
         ann_l = exp[st["xn"]]["ann"] if st["xn"] else None
@@ -321,6 +330,10 @@ def heap_runs(chk):
         runs.append(dict(tag="%s_d1_allcls" % fam, fam=fam, module="C16OperatorHeap", workers=W,
                          cfg=heap_cfg(fam, 1, "ClsAll", "ClsAll", "ValsAZ", "ValsAB", "ThirdNull", targets="TargetsAC",
                                       zero="ZeroNone" if quick else "ZeroAll")))
+        # every scalar form (binary, reflected, augmented; + - *) with every Python / numpy scalar TYPE of the table
+        runs.append(dict(tag="%s_d1_scalars" % fam, fam=fam, module="C16OperatorHeap", workers=W,
+                         cfg=heap_cfg(fam, 1, "ClsTangelo", "ClsSmall" if quick else "ClsMain", "ValsOnlyA" if quick else "ValsAZ",
+                                      "ValsOnlyB" if quick else "ValsAB", scalars="ScalarsTyped", targets="TargetsC" if quick else "TargetsAC")))
         # all histories of length 2 whose left operand starts EMPTY (no terms) / identity-only: "op with an empty left
         # operand, then an in-place op on the result" - a result that adopted an operand's dictionary shows as a frame violation
         runs.append(dict(tag="%s_d2_empty" % fam, fam=fam, module="C16OperatorHeap", workers=W + 2,
@@ -334,7 +347,7 @@ def heap_runs(chk):
         # chains of length 10 (random), initial values from the generated pool
         runs.append(dict(tag="%s_sim" % fam, fam=fam, module="C16OperatorHeap", workers=1,
                          simulate="num=%d" % (60 if quick else 2000), depth=11, seed=chk.seed + (3 if fam == "F" else 5),
-                         cfg=heap_cfg(fam, 10, "ClsAll", "ClsMain", "Vals1Z", "ValsFixed", "ThirdNull", targets="TargetsAC", scalars="ScalarsAll",
+                         cfg=heap_cfg(fam, 10, "ClsAll", "ClsMain", "Vals1Z", "ValsFixed", "ThirdNull", targets="TargetsAC", scalars="ScalarsAll" if quick else "ScalarsTyped",
                                       mt=6, ml=8, bound=4096)))
         if not quick:
             # every transition out of every distinct heap reachable in 3 steps (one representative history each)
@@ -734,7 +747,9 @@ INVARIANT EndOfBehaviour
 PROPERTY FrameOK
 %(extra)s
 """
-MM_ACTIONS = ("IMulO", "IMulS", "IAddO", "Compress", "RemoveAny", "ArrMul", "AddCollapse", "Commute", "RoundTrip", "GetKernel")
+MM_ACTIONS = ("IMulO", "IMulS", "IAddO", "CompressDD", "CompressDN", "CompressTD", "CompressTN", "CompressBD", "CompressBN",
+              "RemoveInt", "RemoveList", "RemoveArray", "ArrMul", "AddCollapse", "Commute", "RoundTripN", "RoundTripD", "GetKernel")
+MM_TOL = {"D": None, "T": 1e-12, "B": 1.5}
 
 
 def mm_cfg(depth, vm="ValsMSmall", vs="ValsSSmall", sc="ScalarsOne", tg="TargetsP", export="leaf", view=False, mt=8, bound=256):
@@ -748,16 +763,17 @@ def mm_build(o):
     return MultiformOperator.from_qubitop(mk_qop([(tuple(e["t"]), complex(e["re"], e["im"]) if e["im"] else float(e["re"])) for e in o["val"]]), NQ)
 
 
-def mm_compare(obj, want, ordered=True, n=NQ):
+def mm_compare(obj, want, ordered=True):
     """Compares EVERY derived attribute of the real object with the exported abstract object. Returns a clause or None."""
     if (obj is None) != (not want["ex"]):
         return "existence"
     if obj is None:
         return None
+    n = want["n"]
     val = {}
     for t, c in obj.terms.items():
         if abs(complex(c)) > 1e-12:
-            val[term_to_key("Q", t, n)] = complex(c)
+            val[term_to_key("Q", t, NQ)] = complex(c)
     wv = {tuple(e["t"]): complex(e["re"], e["im"]) for e in want["val"]}
     if not same_val(val, wv):
         return "terms-wrong"
@@ -791,7 +807,7 @@ def mm_compare(obj, want, ordered=True, n=NQ):
     # row order = order of the terms dictionary whenever the arrays are in sync with the terms
     if ordered and set(wv) == set(tuple(e["w"]) for e in arr) and len(obj.terms) == len(arr):
         byword = {tuple(e["w"]): tuple(e["int"]) for e in arr}
-        order = [byword[term_to_key("Q", t, n)] for t in obj.terms]
+        order = [byword[term_to_key("Q", t, NQ)] for t in obj.terms]
         if order != rows:
             return "row-order-differs-from-terms"
         if obj.n_terms != len(arr):
@@ -815,8 +831,14 @@ def mm_replay(chk, h0, steps):
         site = {"imul": "__imul__", "imuls": "__imul__", "iadd": "__iadd__", "isub": "__isub__", "compress": "compress",
                 "remove": "remove_terms", "mul": "__mul__", "addcollapse": "collapse", "commute": "do_commute",
                 "roundtrip": "from_qubitop", "kernel": "get_kernel"}[kind]
+        if kind == "compress":
+            site = "compress[abs_tol=%s,n_qubits=%s]" % ({"D": "default", "T": "1e-12", "B": "1.5"}[st["flag"][0]], {"D": "default", "N": "N"}[st["flag"][1]])
+        elif kind == "remove":
+            site = "remove_terms[%s]" % st["flag"]
+        elif kind == "roundtrip":
+            site = "from_qubitop[n_qubits=%s]" % {"D": "default", "N": "N"}[st["flag"]]
         detail0 = "step %d of %d: %s(x=%s%s)%s after %s" % (si + 1, len(steps), kind, st["x"], (", y=" + st["y"]) if st["y"] else "",
-                                                         " flag=%s" % st["flag"] if kind in ("compress", "commute", "remove") else "",
+                                                         " opt=%s" % (st["flag"],) if st["flag"] else "",
                                                          [s["kind"] for s in steps[:si]])
         res = None
         try:
@@ -833,26 +855,40 @@ def mm_replay(chk, h0, steps):
                 x -= y
                 heap[st["x"]] = x
             elif kind == "compress":
-                if st["flag"]:
-                    x.compress()
-                else:
-                    x.compress(n_qubits=NQ)
+                kw = {}
+                if MM_TOL[st["flag"][0]] is not None:
+                    kw["abs_tol"] = MM_TOL[st["flag"][0]]
+                if st["flag"][1] == "N":
+                    kw["n_qubits"] = NQ
+                x.compress(**kw)
             elif kind == "remove":
                 rows = [tuple(int(v) for v in r) for r in np.asarray(x.integer)]
                 idx = [rows.index(tuple(r)) for r in st["rows"]]
-                x.remove_terms(idx[0] if st["flag"] else idx)
+                x.remove_terms({"int": lambda: idx[0], "list": lambda: list(idx), "array": lambda: np.array(idx)}[st["flag"]]())
             elif kind == "mul":
                 heap[st["r"]] = x * y
             elif kind == "addcollapse":
                 u, f = MultiformOperator.collapse(np.concatenate((x.integer, y.integer)), np.concatenate((x.factors, y.factors)))
                 heap[st["r"]] = MultiformOperator.from_integerop(u, f)
             elif kind == "commute":
-                res = do_commute(x, y, term_resolved=bool(st["flag"]))
+                res = do_commute(x, y, term_resolved=(st["flag"] == "tr"))
             elif kind == "roundtrip":
                 from tangelo.toolboxes.operators import QubitOperator
                 q = x.qubitoperator
-                new = MultiformOperator.from_qubitop(q, NQ)
-                new.compress(n_qubits=NQ)
+                if st["flag"] == "N":
+                    new = MultiformOperator.from_qubitop(q, NQ)
+                    new.compress(n_qubits=NQ)
+                else:
+                    new = MultiformOperator.from_qubitop(q)
+                    # the default register width (count_qubits) is checked before compress() recomputes it; only when the
+                    # handed-out operator stores no explicit zero-coefficient word (those count for count_qubits)
+                    if all(abs(complex(c)) > 1e-12 for c in q.terms.values()) and \
+                            (new.n_qubits != st["upd"]["n"] or np.asarray(new.integer).shape[1:] != (st["upd"]["n"],)):
+                        viol(chk, "MultiformOperator.from_qubitop[n_qubits=default]:n_qubits-wrong:before-compress",
+                             "%s: from_qubitop(q) built a register of %s qubits (integer shape %s), count_qubits says %d" % (
+                                 detail0, new.n_qubits, np.asarray(new.integer).shape, st["upd"]["n"]), case)
+                        return done
+                    new.compress()
                 q += QubitOperator((), 7.0)          # the operator handed out is a copy: scribbling on it must not reach x (or new)
                 heap[st["r"]] = new
             elif kind == "kernel":
@@ -869,7 +905,7 @@ def mm_replay(chk, h0, steps):
         # ---- results --------------------------------------------------------------------------------
         if kind == "commute":
             e = st["exp"]
-            if st["flag"]:
+            if st["flag"] == "tr":
                 rows = [tuple(int(v) for v in r) for r in np.asarray(x.integer)]
                 want = {tuple(t["int"]): t["c"] for t in e["trw"]}
                 got = [bool(v) for v in np.asarray(res).ravel()]
